@@ -27,14 +27,15 @@ lemma_check() {
   local f="$1"; shift
   local d="$S/lean_$RANDOM"; mkdir -p "$d/FScratch"
   cp "$f" "$d/FScratch/Funcs.lean"
-  sed 's/^import Verif.Gen.Funcs$/import FScratch.Funcs/' $V/lean/Verif/Lemmas/Funcs/Base.lean > "$d/FScratch/Base.lean"
+  local SED='s/^import Verif.Gen.Funcs$/import FScratch.Funcs/; s/^import Verif\.Lemmas\.Funcs\.\([A-Za-z0-9]*\)$/import FScratch.\1/'
+  sed "$SED" $V/lean/Verif/Lemmas/Funcs/Base.lean > "$d/FScratch/Base.lean"
   local rc=0
   ( cd "$d" && export LEAN_PATH="$d:$LP" &&
     lean -o FScratch/Funcs.olean FScratch/Funcs.lean &&
     lean -o FScratch/Base.olean FScratch/Base.lean ) > "$d/out.txt" 2>&1 || { echo "      Funcs/Base do not compile: $(grep -m2 error "$d/out.txt")"; return 1; }
   for g in "$@"; do
-    sed 's/^import Verif.Lemmas.Funcs.Base$/import FScratch.Base/' $V/lean/Verif/Lemmas/Funcs/$g.lean > "$d/FScratch/$g.lean"
-    ( cd "$d" && export LEAN_PATH="$d:$LP" && lean FScratch/$g.lean ) > "$d/out_$g.txt" 2>&1
+    sed "$SED" $V/lean/Verif/Lemmas/Funcs/$g.lean > "$d/FScratch/$g.lean"
+    ( cd "$d" && export LEAN_PATH="$d:$LP" && lean -o FScratch/$g.olean FScratch/$g.lean ) > "$d/out_$g.txt" 2>&1
     if grep -q "error" "$d/out_$g.txt"; then
       rc=1; echo "      $g: $(grep -m1 error "$d/out_$g.txt" | sed "s|$d/||" | cut -c1-160)"
     fi
@@ -45,7 +46,7 @@ lemma_check() {
 
 fresh; gen "$S/base.lean"
 echo "== baseline: $(grep -c '^def ' "$S/base.lean") defs, $(grep -c UNSUPPORTED "$S/base.lean") unsupported; lemma files against it:"
-lemma_check "$S/base.lean" Read Write Append TTH && echo "   all ok" || echo "   FAILS (unexpected)"
+lemma_check "$S/base.lean" Read Write Append TTH TTH2 Skip && echo "   all ok" || echo "   FAILS (unexpected)"
 
 mutant() { # name, file, sed expression, group
   fresh
@@ -54,7 +55,7 @@ mutant() { # name, file, sed expression, group
   gen "$S/mut.lean"
   local n=$(diff <(defs "$S/base.lean") <(defs "$S/mut.lean") | grep -c '^[<>]')
   echo "== mutation $1 ($2): $n changed lines in the generated definitions"
-  if lemma_check "$S/mut.lean" $4 >/dev/null; then echo "   -> lemma file $4 STILL CHECKS (mutation not detected by Tie A)"; else echo "   -> lemma file $4 no longer checks"; fi
+  if lemma_check "$S/mut.lean" $4 >/dev/null; then echo "   -> lemma files $4 STILL CHECK (mutation not detected by Tie A)"; else echo "   -> lemma files $4: one no longer checks"; fi
 }
 if [ "${1:-all}" != "harmless" ]; then
 mutant "ReadI32 guard < 4 -> < 3"        protocol/thrift/binary.go '/func (BinaryProtocol) ReadI32/,/^}/s/len(buf) < 4/len(buf) < 3/' Read
@@ -69,6 +70,16 @@ mutant "StringLengthNocopy 4 -> 0 + len" protocol/thrift/binary.go 's/func (Bina
 mutant "AppendBool 1 <-> 0"              protocol/thrift/binary.go '/func (BinaryProtocol) AppendBool/,/^}/s/append(buf, 1)/append(buf, 2)/' Append
 mutant "ReadString2BLen uint16 sum"      protocol/ttheader/utils.go 's/return string(buf), int(length) + 2, nil/return string(buf), int(length + 2), nil/' TTH
 mutant "Bytes2Uint16 guard < 2 -> < 1"   protocol/ttheader/utils.go '/func Bytes2Uint16(/,/^}/s/len(bytes)-off < 2/len(bytes)-off < 1/' TTH
+mutant "readKVInfo: padding ends the info"  protocol/ttheader/decode.go '/case InfoIDPadding:/{n;s/continue/return/}' "TTH TTH2"
+mutant "readStrKVInfo: kvSize <= 1"     protocol/ttheader/decode.go '/func readStrKVInfo/,/^}/s/kvSize <= 0/kvSize <= 1/' "TTH TTH2"
+mutant "readIntKVInfo: idx += 1"        protocol/ttheader/decode.go '/func readIntKVInfo/,/^}/s/\*idx += 2/*idx += 1/' "TTH TTH2"
+mutant "checkProtocolID drops a case"   protocol/ttheader/decode.go '/case uint8(ProtocolIDThriftStruct):/d' "TTH TTH2"
+mutant "skipstr 4+n < e"                protocol/thrift/binary.go '/^func skipstr/,/^}/s/if 4+n <= e/if 4+n < e/' Skip
+mutant "skipType map fast path 5+"      protocol/thrift/binary.go 's/if 6+mapkvsize > e/if 5+mapkvsize > e/' Skip
+mutant "skipType list loop i > e"       protocol/thrift/binary.go '/case LIST, SET:/,/case STRUCT:/s/if i >= e {/if i > e {/' Skip
+mutant "skipType struct field id 1 byte" protocol/thrift/binary.go 's|i += 2 // Field ID|i += 1 // Field ID|' Skip
+mutant "skipType maxdepth not decremented" protocol/thrift/binary.go '/case STRUCT:/,/default:/s/ft, maxdepth-1)/ft, maxdepth)/' Skip
+mutant "p2i32 byte order"               protocol/thrift/utils.go 's/unsafe.Add(p, 1)))<<16/unsafe.Add(p, 1)))<<8/' Skip
 mutant "IsStreaming flag mask"           protocol/ttheader/utils.go 's/&uint16(HeaderFlagsStreaming) != 0/\&uint16(HeaderFlagsStreaming) == uint16(HeaderFlagsStreaming)/' TTH
 fi
 
@@ -81,7 +92,7 @@ for p in $V/seeded/harmless/refac*.diff $V/seeded/harmless/refactor_skipstr.diff
   n=$(diff <(defs "$S/base.lean") <(defs "$S/h.lean") | grep -c '^[<>]')
   u=$(grep -c UNSUPPORTED "$S/h.lean")
   if [ "$n" = 0 ]; then echo "== harmless $(echo $p | sed "s|$V/seeded/harmless/||"): generated definitions identical"; continue; fi
-  if lemma_check "$S/h.lean" Read Write Append TTH; then echo "== harmless $(echo $p | sed "s|$V/seeded/harmless/||"): $n changed lines, $u unsupported; all lemma files still check"
+  if lemma_check "$S/h.lean" Read Write Append TTH TTH2 Skip; then echo "== harmless $(echo $p | sed "s|$V/seeded/harmless/||"): $n changed lines, $u unsupported; all lemma files still check"
   else echo "== harmless $(echo $p | sed "s|$V/seeded/harmless/||"): $n changed lines, $u unsupported; A LEMMA FILE NO LONGER CHECKS (see above)"; fi
 done
 fi
